@@ -208,7 +208,51 @@ func (c *Case) build(ctx context.Context, o order) *built {
 		}
 		pn := &predNode{full: p.Value, chunks: p.Chunk[0]}
 		b.pns[i] = pn
-		b.h.addLambda(p.Key, predOf[p.Type](pn)).AddInput(compose.START)
+		node := b.h.addLambda(p.Key, predOf[p.Type](pn))
+		if g := c.Gate; g != nil && g.Gated[i] {
+			// runs only when the branch below the gate node selects it; its input comes without a control dependency
+			from := "gate"
+			if g.PredFrom == 1 {
+				from = compose.START
+			}
+			node.AddInputWithOptions(from, nil, compose.WithNoDirectDependency())
+		} else {
+			node.AddInput(compose.START)
+		}
+	}
+	if g := c.Gate; g != nil {
+		b.h.addLambda("gate", mkRelay[any]()).AddInput(compose.START)
+		var ends, picked []string
+		for i, p := range c.Preds {
+			if g.Gated[i] {
+				ends = append(ends, p.Key)
+				if g.Picked[i] {
+					picked = append(picked, p.Key)
+				}
+			}
+		}
+		switch g.CtlKind {
+		case 0:
+			if g.CtlData {
+				b.h.addLambda("ctl", mkRelay[any]()).AddInputWithOptions("gate", nil, compose.WithNoDirectDependency())
+			} else {
+				b.h.addLambda("ctl", mkRelay[string]())
+			}
+			ends, picked = append(ends, "ctl"), append(picked, "ctl")
+		case 1:
+			if g.CtlData {
+				b.h.addLambda("ctl", mkRelay[any]()).AddInput(compose.START)
+			} else {
+				b.h.addLambda("ctl", mkRelay[string]()).AddDependency(compose.START)
+			}
+		}
+		if len(ends) == 1 {
+			// a branch needs two end nodes
+			b.h.addLambda("gatealt", mkRelay[string]())
+			b.h.end().AddDependency("gatealt")
+			ends = append(ends, "gatealt")
+		}
+		b.h.addBranch("gate", mkGate(g.Form, picked, ends))
 	}
 	var succ *compose.WorkflowNode
 	succKey := "succ"
@@ -216,8 +260,29 @@ func (c *Case) build(ctx context.Context, o order) *built {
 		succ = b.h.end()
 		succKey = compose.END
 	} else {
-		succ = b.h.addLambda("succ", succOf[c.Tgt](b.rec))
+		if c.SuccInv {
+			succ = b.h.addLambda("succ", sinvOf[c.Tgt](b.rec))
+		} else {
+			succ = b.h.addLambda("succ", succOf[c.Tgt](b.rec))
+		}
 		b.h.end().AddInput("succ")
+	}
+	// the control predecessor of the successor that finishes whatever the gate selects
+	ctlDep := func() {
+		if c.Gate == nil {
+			return
+		}
+		switch c.Gate.CtlKind {
+		case 0, 1:
+			succ.AddDependency("ctl")
+		case 2:
+			succ.AddDependency(compose.START)
+		case 3:
+			succ.AddDependency("gate")
+		}
+	}
+	if o.DepFirst {
+		ctlDep()
 	}
 	statics := func() {
 		for _, s := range c.Statics {
@@ -280,6 +345,9 @@ func (c *Case) build(ctx context.Context, o order) *built {
 	}
 	if !o.StaticFirst {
 		statics()
+	}
+	if !o.DepFirst {
+		ctlDep()
 	}
 	b.run, b.cerr = b.h.compile(ctx)
 	return b
@@ -351,7 +419,8 @@ func (c *Case) runInvoke(ctx context.Context, b *built) outcome {
 }
 
 // runStream: sel[i] selects the chunking of predecessor i. api: 0 = Transform with
-// the chunked START input, 1 = Stream (START emits its full value as one chunk).
+// the chunked START input, 1 = Stream (START emits its full value as one chunk),
+// 2 = Collect with the chunked START input (the output stream is assembled into one value).
 func (c *Case) runStream(ctx context.Context, b *built, sel []int, api int) outcome {
 	b.rec.reset()
 	for i, p := range c.Preds {
@@ -368,9 +437,14 @@ func (c *Case) runStream(ctx context.Context, b *built, sel []int, api int) outc
 	var outs []any
 	var err error
 	p := mon.Safe(func() {
-		if api == 1 {
+		switch api {
+		case 1:
 			outs, err = b.run.stream(ctx, ins[0])
-		} else {
+		case 2:
+			var one any
+			one, err = b.run.collect(ctx, ins)
+			outs = []any{one}
+		default:
 			outs, err = b.run.transform(ctx, ins)
 		}
 	})
@@ -439,6 +513,10 @@ func (c *Case) apply(e *expectation, root reflect.Value, m mapping, src any) {
 	case gNilPtr:
 		e.note(name("interface-source-holds-nil-pointer", "nil-pointer-deeper-below-interface-source", "nil-pointer-on-source-path"), st.String()+at, false)
 		return
+	case gNilEmb:
+		// the field is promoted through an embedded pointer which is nil in this value: no value at the source path
+		e.note(name("interface-source-holds-struct-with-nil-embedded-pointer", "nil-embedded-pointer-deeper-below-interface-source", "nil-embedded-pointer-on-source-path"), st.String()+at, false)
+		return
 	case gNilIface:
 		cls := "interface-source-holds-nil"
 		if wh.Below {
@@ -471,6 +549,9 @@ func (c *Case) apply(e *expectation, root reflect.Value, m mapping, src any) {
 			cls := "interface-source-value-nil"
 			if m.src.Dyn {
 				cls = "interface-source-path-yields-nil"
+			}
+			if len(m.To) == 0 {
+				cls = "nil-interface-value-for-whole-input"
 			}
 			if nillable(lt) {
 				e.note(cls, "untyped nil for a typed nillable target", false)
@@ -508,6 +589,9 @@ func (c *Case) expectInvoke() *expectation {
 	e := &expectation{}
 	root := reflect.New(c.Tgt).Elem()
 	for pi, p := range c.Preds {
+		if c.skipped(pi) {
+			continue // did not run: contributes nothing
+		}
 		if p.Whole {
 			root.Set(reflect.ValueOf(p.Value))
 			continue
@@ -530,6 +614,9 @@ func (c *Case) expectInvoke() *expectation {
 func (c *Case) expectStream(sel []int) *expectation {
 	e := &expectation{}
 	for pi, p := range c.Preds {
+		if c.skipped(pi) {
+			continue
+		}
 		for _, chunk := range p.Chunk[sel[pi]] {
 			root := reflect.New(c.Tgt).Elem()
 			if p.Whole {
@@ -567,9 +654,37 @@ func sub(t *tree, path []string) *tree {
 		if t == nil || t.Kids == nil {
 			return nil
 		}
-		t = t.Kids[el]
+		k, ok := t.Kids[el]
+		if !ok && t.K == "struct" {
+			k = promotedKid(t, el)
+		}
+		t = k
 	}
 	return t
+}
+
+// promotedKid: the field el of a struct tree that is promoted from one of its embedded fields.
+func promotedKid(t *tree, el string) *tree {
+	for _, name := range t.Emb {
+		e := t.Kids[name]
+		for e != nil && e.K == "ptr" {
+			if e.Nil {
+				e = nil
+				break
+			}
+			e = e.Elem
+		}
+		if e == nil || e.K != "struct" {
+			continue
+		}
+		if k, ok := e.Kids[el]; ok {
+			return k
+		}
+		if k := promotedKid(e, el); k != nil {
+			return k
+		}
+	}
+	return nil
 }
 
 // belowEmbedded: the target continues at least two levels below an entry of a map
